@@ -270,7 +270,7 @@ func (st *ex6State) op(kind string, fn func(o *ex6Op)) *ex6Op {
 	s.LeaveSUT()
 	o.retT = s.Now()
 	o.returned = true
-	o.retSeq = s.Ev("op.return", len(st.ops)-1, 0, fmt.Sprintf("%s err=%v", kind, o.err), nil)
+	o.retSeq = s.Ev("op.return", len(st.ops)-1, 0, fmt.Sprintf("%s err=%s", kind, logErr(o.err)), nil)
 	st.cur = nil
 	return o
 }
